@@ -630,4 +630,16 @@ def main(argv):
 
 
 if __name__ == '__main__':
-    sys.exit(main(sys.argv[1:]))
+    # an internal error of the machinery is never a verdict about /repo: it is reported as undecided (exit 2),
+    # so that only a named failed obligation can ever produce exit 1
+    try:
+        rc = main(sys.argv[1:])
+    except (SystemExit, KeyboardInterrupt):
+        raise
+    except BaseException:
+        import traceback
+        traceback.print_exc()
+        print('UNDECIDED internal error of the checking machinery (see the traceback above); no verdict')
+        sys.stdout.flush()
+        sys.exit(2)
+    sys.exit(rc)
